@@ -370,6 +370,10 @@ CORPUS = [
     'C Q(I) A(i1,i2) L(i1,i2) T(i1,i2,i0)',
     'C M(I,S) M(i1:s61,i0:s62) M(i0:s62,i1:s61) M(i0:s62)',
     'C B1.3 b1.000102 b1.0001ff b1.00017f',
+    'C M(I,S) M(i1:s61) M(i1:s62) M(i1:s61,i0:s60)',
+    'C Q(I) L(i2) L(i1) L(i1,i5)',
+    'C Q(S) A(s62,s61) A(s61,s62) A(s62)',
+    'C Q(F) T(f3ff0000000000000) T(f3fe0000000000000) T(f3ff0000000000001)',
     'C Q(Y) T(t496e74) T(t496e) T(t496e74,t466c6f6174)',
 ]
 
